@@ -116,6 +116,11 @@ def string_leaves(hg, hrd, node, expr, depth=0, seen=None):
                     else:
                         out += string_leaves(hg, hrd, n2, a2, depth + 1, seen)
         return out or [('unknown', '%s (no definition)' % expr.id)]
+    if isinstance(expr, ast.Subscript) and not isinstance(expr.slice, ast.Slice) and isinstance(expr.value, ast.Name):
+        # one element of a local collection: classified like the collection's elements
+        return string_leaves(hg, hrd, node, expr.value, depth + 1, seen)
+    if isinstance(expr, ast.Subscript) and isinstance(expr.slice, ast.Slice):
+        return string_leaves(hg, hrd, node, expr.value, depth + 1, seen)
     if isinstance(expr, ast.IfExp):
         return string_leaves(hg, hrd, node, expr.body, depth, seen) + string_leaves(hg, hrd, node, expr.orelse, depth, seen)
     if isinstance(expr, ast.BoolOp):
